@@ -324,8 +324,29 @@ func runC19(ctx *vh.Ctx) error {
 		default:
 			c.Consume = 1
 		}
+		before := len(ctx.Res.Disagreements)
 		if err := c19One(ctx, c); err != nil {
 			return err
+		}
+		if len(ctx.Res.Disagreements) > before {
+			ctx.ShrinkNew(before, 120, func(cs any) []any {
+				cc, ok := cs.(*c19Case)
+				if !ok {
+					return nil
+				}
+				var out []any
+				for _, g := range gcase.ShrinkCandidates(cc.G) {
+					d := *cc
+					d.G = g
+					out = append(out, &d)
+				}
+				if len(cc.Handlers) > 0 {
+					d := *cc
+					d.Handlers = nil
+					out = append(out, &d)
+				}
+				return out
+			}, func(sh *vh.Ctx, cand any) { _ = c19One(sh, cand.(*c19Case)) })
 		}
 	}
 	return nil
